@@ -336,7 +336,7 @@ pub fn run(ctx: &Ctx) -> i32 {
         salt: 0x1401_0000,
         nshards: 64,
         enumerated: &enumerated,
-        random_cases: tier.pick(600_000, 10_000_000),
+        random_cases: tier.pick(600_000, 30_000_000),
         build_random: &|e| build(e, None, None),
         classify: &|c, j, t: &Tag, s| classify(c, j, t, s),
         all_quirks: false,
